@@ -87,7 +87,7 @@ pub fn run_scenario(sc: &MScenario, replay: Option<Vec<Decision>>, trace: bool) 
                 }
             } else {
                 // wind the actors down so that every coroutine finishes cleanly
-                let _ = drain(&mut sim, &mut h);
+                let _ = drain(&mut sim, &mut h, false);
             }
         }
         Built::NoRuntime => {
@@ -107,6 +107,18 @@ pub fn run_scenario(sc: &MScenario, replay: Option<Vec<Decision>>, trace: bool) 
     let mut decisions = sim.decisions.clone();
     decisions.truncate(main_len);
     let virtual_ms = sim.clock.advanced_total_ms;
+    // release everything the world still owns while it is installed (drops call back into it)
+    let leftovers: Vec<SObject> = with_w(|w| {
+        w.draining = true;
+        let mut v = Vec::new();
+        for h in w.held.iter_mut() {
+            v.append(h);
+        }
+        v
+    });
+    let _ = std::panic::catch_unwind(std::panic::AssertUnwindSafe(move || drop(leftovers)));
+    let pool = with_w(|w| w.pool.take());
+    let _ = std::panic::catch_unwind(std::panic::AssertUnwindSafe(move || drop(pool)));
     let w = remove_world().expect("world");
     let nt = nontrivial(&w, &stats);
     let mut faults = w.cnt.faults.clone();
@@ -139,6 +151,7 @@ pub fn run_scenario(sc: &MScenario, replay: Option<Vec<Decision>>, trace: bool) 
         .collect();
     let ops = w.ops.iter().filter(|o| o.actor != engine::CONTROLLER).count() as u64;
     drop(w);
+    sim.abandon_unfinished();
     drop(guard);
     drop(sim);
     let (log_hash, trace) = end_run();
@@ -184,11 +197,15 @@ fn nontrivial(w: &MWorld, stats: &RunStats) -> bool {
     (overlap && stats.switches > 0) || faults > 0
 }
 
-fn drain(sim: &mut Sim, h: &mut MHandle) -> Result<(), Option<Violation>> {
+fn drain(sim: &mut Sim, h: &mut MHandle, stop_on_violation: bool) -> Result<(), Option<Violation>> {
     with_w(|w| w.draining = true);
     for _round in 0..64 {
-        // open every gate: fault-free completion is fine, cancellation comes next
-        sim.settle(h, 20_000)?;
+        match sim.settle(h, 20_000) {
+            Ok(()) => {}
+            Err(Some(v)) if stop_on_violation => return Err(Some(v)),
+            Err(Some(_)) => continue,
+            Err(None) => return Err(None),
+        }
         let pending = sim.pending_actors();
         if pending.is_empty() {
             return Ok(());
@@ -197,7 +214,9 @@ fn drain(sim: &mut Sim, h: &mut MHandle) -> Result<(), Option<Violation>> {
             h.note_cancel(a);
             let _ = sim.resume(a, Resume::Cancel);
             if let Some(v) = with_w(|w| w.pending_violation.take()) {
-                return Err(Some(v));
+                if stop_on_violation {
+                    return Err(Some(v));
+                }
             }
         }
     }
@@ -205,9 +224,12 @@ fn drain(sim: &mut Sim, h: &mut MHandle) -> Result<(), Option<Violation>> {
 }
 
 fn epilogue(sc: &MScenario, sim: &mut Sim, h: &mut MHandle) -> Option<Violation> {
-    match drain(sim, h) {
+    match drain(sim, h, true) {
         Ok(()) => {}
-        Err(Some(v)) => return Some(v),
+        Err(Some(v)) => {
+            let _ = drain(sim, h, false);
+            return Some(v);
+        }
         Err(None) => {
             return Some(Violation::new(
                 &sc.profile,
